@@ -20,6 +20,11 @@ def inputs(ctx, quick, rng):
     texts += list(sigma_strings(SIGMA_QUICK, 2 if quick else 3))
     texts += [random_unicode(rng, 50) for _ in range(300 if quick else 6000)]
     texts += notable_inputs() + [t for t in long_token_inputs() if len(t) < 6000 and ' ' * 50 not in t]
+    # every word of the keyword tables between two operands: whatever a grouping pass does with the word (operator,
+    # comparison, ...), the leaf stays the lexer's token (only the wildcard/operator re-typing is allowed)
+    from .. import extract
+    kws = sorted(extract.all_keyword_words())
+    texts += ['a %s b' % w.lower() for w in kws] + ['select 5 %s 2 from t' % w for w in (kws[::3] if quick else kws)]
     fx = repo_texts()
     texts += [t[:300] for t in fx] + [t[i:i + 150] for t in fx for i in range(0, min(len(t), 1500), 150)]
     return texts
